@@ -134,7 +134,9 @@ def run_history(root, prefix, history):
             m = run["edit_keep_mtime"]
             versions[m] = versions[m] * 10 + 7      # one more digit: the size changes, the mtime does not
             write_sources(root, prefix, versions, mtimes)
-        env_run = dict(env, PYTHONDONTWRITEBYTECODE="1") if run.get("nowrite") else env
+        env_run = dict(env, PYTHONDONTWRITEBYTECODE="1") if run.get("nowrite") else dict(env)
+        if run.get("disabled"):
+            env_run["JAXTYPING_DISABLE"] = "1"     # checking switched off for this run: the hook still instruments (the wrappers do nothing)
         p = subprocess.run([PY, "-c", RUNNER, root, REPO, prefix, json.dumps(run)], env=env_run, capture_output=True, text=True, timeout=300)
         line = next((l for l in p.stdout.splitlines() if l.startswith("RESULT ")), None)
         if line is None:
@@ -214,6 +216,11 @@ FIXED = [
     # typechecker), run 2 hooks c as well; and the converse
     [{"hooked": ["a"], "checker": "LOCAL", "order": ["a"]}, {"hooked": ["a", "c"], "checker": "LOCAL", "order": ["a"]}, {"hooked": ["c"], "checker": "LOCAL", "order": ["c", "a"]}],
     [{"hooked": ["b", "c"], "checker": "LOCAL", "order": ["a"]}, {"hooked": ["b"], "checker": "LOCAL", "order": ["a", "c"]}, {"hooked": [], "checker": None, "order": ["c"]}],
+    # a run with checking switched off (JAXTYPING_DISABLE=1) writes the cache first; later runs have it on
+    [{"hooked": ["c"], "checker": "spy_a.check", "order": ["c"], "disabled": True}, {"hooked": ["c"], "checker": "spy_a.check", "order": ["c"]}],
+    [{"hooked": ["a", "b"], "checker": "spy_b.check", "order": ["a"], "disabled": True}, {"hooked": ["a", "b"], "checker": "spy_b.check", "order": ["a"]},
+     {"hooked": [], "checker": None, "order": ["a"], "disabled": True}],
+    [{"hooked": ["c"], "checker": None, "order": ["c"], "disabled": True}, {"hooked": ["c"], "checker": None, "order": ["c"]}],
     # None checker then a real spy
     [{"hooked": ["a", "b", "c"], "checker": None, "order": ["c", "a"]}, {"hooked": ["a", "b", "c"], "checker": "spy_a.check", "order": ["a", "c"]}],
 ]
@@ -233,6 +240,8 @@ def gen_history(rng):
             run["broken"] = True
         if rng.chance(1, 4):
             run["nowrite"] = True
+        if rng.chance(1, 5):
+            run["disabled"] = True
         if rng.chance(1, 3):
             rest = [m for m in "abc" if m not in hooked]
             if rest:
